@@ -4,13 +4,13 @@ import (
 	"testing"
 
 	"github.com/anishathalye/porcupine"
-	"github.com/openconfig/gribigo/rib"
-	"github.com/openconfig/gribigo/server"
+	"github.com/openconfig/gribigo/chk"
 	"github.com/openconfig/gribigo/client"
 	"github.com/openconfig/gribigo/compliance"
-	"github.com/openconfig/gribigo/chk"
 	"github.com/openconfig/gribigo/fluent"
+	"github.com/openconfig/gribigo/rib"
 	"github.com/openconfig/gribigo/rib/reconciler"
+	"github.com/openconfig/gribigo/server"
 	"google.golang.org/grpc/test/bufconn"
 )
 
